@@ -562,16 +562,48 @@ func respGuardExtra(t *tr) string {
 	if do := rgFindMethod(hp, "panicOnHTTP1Client", "Do"); do == nil {
 		t.errs = append(t.errs, "panicOnHTTP1Client.Do not found")
 	} else {
+		// the condition under which an ERROR of the wrapped Do is taken for "the target has no HTTP/2": the `if` inside the
+		// `err != nil` block whose body panics. It is regenerated as a boolean FUNCTION of its atoms (so reordering the
+		// conjuncts is harmless and `&&` -> `||` is not); in the skeleton it appears as DOERR-COND.
+		var condExpr ast.Expr
+		for _, s := range do.Body.List {
+			if x, ok := s.(*ast.IfStmt); ok && oneLine(nodeString(hp, x.Cond)) == "err != nil" {
+				for _, in := range x.Body.List {
+					if y, ok := in.(*ast.IfStmt); ok && strings.Contains(rgIfSkeleton(hp, y.Body), "PANIC ") && condExpr == nil {
+						condExpr = y.Cond
+					}
+				}
+			}
+		}
+		condText := ""
+		if condExpr == nil {
+			gsFail(t, hp, do, "panicOnHTTP1Client.Do: no panicking `if` inside `if err != nil`")
+		} else {
+			condText = oneLine(nodeString(hp, condExpr))
+			var unknown []string
+			lean := respguardBoolCond(hp, condExpr, map[string]string{
+				`errors.As(err, &opError)`:                                          "isOpError",
+				`opError.Op == "remote error"`:                                      "opRemoteError",
+				`strings.Contains(err.Error(), "no application protocol")`:          "textNoAppProto",
+			}, &unknown)
+			sort.Strings(unknown)
+			b.WriteString("/-- regenerated from the condition of the panicking `if` inside `if err != nil` of `panicOnHTTP1Client.Do`\n(`" + condText + "`):\nits value as a function of its atoms `errors.As(err, &opError)`, `opError.Op == \"remote error\"`,\n`strings.Contains(err.Error(), \"no application protocol\")` -/\ndef doErrPanics (isOpError opRemoteError textNoAppProto : Bool) : Bool :=\n  " + lean + "\n\n")
+			b.WriteString("/-- atoms of that condition the translator does not know (each is read as `false`) -/\ndef doErrUnknownAtoms : List String := " + leanStrList(unknown) + "\n\n")
+		}
 		var shape []string
 		for _, s := range do.Body.List {
 			switch x := s.(type) {
 			case *ast.IfStmt:
-				shape = append(shape, "if "+oneLine(nodeString(hp, x.Cond))+" {"+rgIfSkeleton(hp, x.Body)+"}")
+				sk := "if " + oneLine(nodeString(hp, x.Cond)) + " {" + rgIfSkeleton(hp, x.Body) + "}"
+				if condText != "" {
+					sk = strings.Replace(sk, "if "+condText+" {", "if DOERR-COND {", 1)
+				}
+				shape = append(shape, sk)
 			default:
 				shape = append(shape, oneLine(nodeString(hp, s)))
 			}
 		}
-		b.WriteString("/-- the statements of `panicOnHTTP1Client.Do` (nested ifs by condition, panics by their first argument) -/\ndef panicOnHTTP1Do : List String := " + leanStrList(shape) + "\n\n")
+		b.WriteString("/-- the statements of `panicOnHTTP1Client.Do` (nested ifs by condition, panics by their first argument; the condition\nof the error branch is `doErrPanics`) -/\ndef panicOnHTTP1Do : List String := " + leanStrList(shape) + "\n\n")
 	}
 
 	// ---------------------------------------------------------------- 5. instance.Run's recover
@@ -708,6 +740,38 @@ func rgBlockEnd(p *packages.Package, blk *ast.BlockStmt) string {
 }
 
 // rgIfSkeleton prints the control skeleton of a block: nested ifs by condition, panics / returns by kind.
+// respguardBoolCond translates a condition built from `&&`, `||`, `!`, parentheses and KNOWN atoms (by source text; an
+// `==` between a string literal and an expression is read in either order) to a core-Lean Bool expression.
+func respguardBoolCond(p *packages.Package, e ast.Expr, atoms map[string]string, unknown *[]string) string {
+	switch x := e.(type) {
+	case *ast.ParenExpr:
+		return respguardBoolCond(p, x.X, atoms, unknown)
+	case *ast.UnaryExpr:
+		if x.Op == token.NOT {
+			return "(!" + respguardBoolCond(p, x.X, atoms, unknown) + ")"
+		}
+	case *ast.BinaryExpr:
+		switch x.Op {
+		case token.LAND:
+			return "(" + respguardBoolCond(p, x.X, atoms, unknown) + " && " + respguardBoolCond(p, x.Y, atoms, unknown) + ")"
+		case token.LOR:
+			return "(" + respguardBoolCond(p, x.X, atoms, unknown) + " || " + respguardBoolCond(p, x.Y, atoms, unknown) + ")"
+		case token.EQL:
+			if _, isLit := x.X.(*ast.BasicLit); isLit {
+				if a, ok := atoms[oneLine(nodeString(p, x.Y))+" == "+oneLine(nodeString(p, x.X))]; ok {
+					return a
+				}
+			}
+		}
+	}
+	txt := oneLine(nodeString(p, e))
+	if a, ok := atoms[txt]; ok {
+		return a
+	}
+	*unknown = append(*unknown, txt)
+	return "false"
+}
+
 func rgIfSkeleton(p *packages.Package, blk *ast.BlockStmt) string {
 	var parts []string
 	for _, s := range blk.List {
